@@ -1,0 +1,116 @@
+//go:build verif
+
+package load
+
+// Contracts for the deductive verifier in /verif (govc). Comment-only file: adds no code.
+
+//@ macro shOK(as) = as != nil && as.overloadTime != nil && as.droppedRecently != nil && as.passCounter != nil && as.rtCounter != nil
+
+// systemOverloaded: true iff the CPU checker says so; only then the overload time is stamped with now.
+//@ func (*adaptiveShedder).systemOverloaded
+//@   prop C09
+//@   requires shOK(as)
+//@   ensures [checker] result == ret(systemOverloadChecker) && calls(systemOverloadChecker, as.cpuThreshold) == 1
+//@   ensures [stamp-iff-overloaded] result ==> *as.overloadTime == ret(timex.Now)
+//@   ensures [no-stamp-otherwise] !result ==> *as.overloadTime == old(*as.overloadTime)
+//@   modifies *as.overloadTime
+
+// stillHot: hot iff a request was dropped recently and the last overload is less than one second old;
+// once cooled off the dropped flag is cleared. Never touches the overload time.
+//@ func (*adaptiveShedder).stillHot
+//@   prop C09
+//@   requires shOK(as)
+//@   let dropped = old(*as.droppedRecently) == 1
+//@   let ot = old(*as.overloadTime)
+//@   ensures [hot] result == (dropped && ot != 0 && ret(timex.Now) - ot < time.Second)
+//@   ensures [cool-off-clears] dropped && ot != 0 && !result ==> *as.droppedRecently == 0
+//@   ensures [flag-kept] !(dropped && ot != 0 && !result) ==> *as.droppedRecently == old(*as.droppedRecently)
+//@   modifies *as.droppedRecently
+
+// highThru: both the smoothed and the current in-flight count exceed the estimated capacity.
+//@ func (*adaptiveShedder).highThru
+//@   prop C09
+//@   requires shOK(as) && 0.0 <= as.avgFlying && as.avgFlying < 9000000000000000000.0 && as.windows >= 0 && as.windows <= 1000000
+//@   ensures [both-exceed] result == (trunc(as.avgFlying) > ret(as.maxFlight) && as.flying > ret(as.maxFlight))
+//@   modifies as.avgFlyingLock.lock
+
+// maxPass = max(1, largest Sum over the visible buckets): the fold keeps result >= 1 and each step takes the max.
+//@ func (*adaptiveShedder).maxPass
+//@   prop C09
+//@   requires shOK(as)
+//@   fold Reduce: result >= 1.0
+//@   ensures [at-least-one] local(result) < 9000000000000000000.0 ==> result0 >= 1
+//@ func (*adaptiveShedder).minRt
+//@   prop C09
+//@   requires shOK(as)
+//@   fold Reduce: result <= 1000.0
+//@   ensures [at-most-default] result0 <= 1000.0
+
+// maxFlight = max(1, maxPass * windows * minRt / 1000), truncated.
+//@ func (*adaptiveShedder).maxFlight
+//@   prop C09
+//@   requires shOK(as) && as.windows >= 0 && as.windows <= 1000000
+//@   ensures [capacity] 1 <= ret(as.maxPass) && ret(as.maxPass) <= 1000000000 ==> result == trunc(max(1.0, real(ret(as.maxPass) * as.windows) * (ret(as.minRt) / 1000.0)))
+//@   ensures [at-least-one] 1 <= ret(as.maxPass) && ret(as.maxPass) <= 1000000000 ==> result >= 1
+//@   modifies nothing
+
+// The fold steps of maxPass / minRt over the visible buckets.
+//@ func (*adaptiveShedder).maxPass$1
+//@   prop C09
+//@   requires b != nil
+//@   ensures [max-step] result == max(old(result), b.Sum)
+//@   modifies result
+//@ func (*adaptiveShedder).minRt$1
+//@   prop C09
+//@   requires b != nil
+//@   ensures [skip-empty] b.Count <= 0 ==> result == old(result)
+//@   ensures [min-step] b.Count > 0 ==> result == min(old(result), ret(math.Round))
+//@   ensures [avg] b.Count > 0 ==> calls(math.Round, b.Sum / real(b.Count)) == 1
+//@   modifies result
+
+// shouldDrop: drops only under (overload now, or overload within the last second after a drop) and high
+// throughput; the overload time is stamped only by a real overload reading.
+//@ func (*adaptiveShedder).shouldDrop
+//@   prop C09
+//@   opaque Sprintf, Error, Report, CpuUsage, maxPass, minRt
+//@   requires shOK(as)
+//@   let overloaded = ret(as.systemOverloaded)
+//@   let dropped0 = old(*as.droppedRecently) == 1
+//@   let ot0 = old(*as.overloadTime)
+//@   ensures [only-when-overloaded-or-hot] result ==> (overloaded || (calls(as.stillHot) >= 1 && ret(as.stillHot))) && ret(as.highThru)
+//@   ensures [never-when-cool] !overloaded && !dropped0 ==> !result
+//@   ensures [never-without-overload-ever] !overloaded && ot0 == 0 ==> !result
+//@   ensures [stamp-only-on-overload] !overloaded ==> *as.overloadTime == ot0
+//@   ensures [drop-iff] result == ((overloaded || ret(as.stillHot)) && calls(as.highThru) == 1 && ret(as.highThru))
+
+// addFlying: the in-flight counter moves by delta; on completions the EWMA is a convex combination.
+//@ func (*adaptiveShedder).addFlying
+//@   prop C09
+//@   requires as != nil
+//@   ensures [count] as.flying == old(as.flying) + delta
+//@   ensures [ewma] delta < 0 ==> as.avgFlying == old(as.avgFlying) * 0.9 + real(as.flying) * 0.1
+// (the float64 constants 0.9 and 0.1 sum to 1 + 2.8e-17, hence the relative slack in the upper bound)
+//@   ensures [ewma-bounds] delta < 0 && as.flying >= 0 && old(as.avgFlying) >= 0.0 ==> min(old(as.avgFlying), real(as.flying)) * 0.999999999 <= as.avgFlying && as.avgFlying <= max(old(as.avgFlying), real(as.flying)) * 1.000000001
+//@   ensures [ewma-kept] delta >= 0 ==> as.avgFlying == old(as.avgFlying)
+//@   modifies as.flying, as.avgFlying, as.avgFlyingLock.lock
+
+// Allow: a rejected request is not counted in flight; an admitted one is counted exactly once.
+//@ func (*adaptiveShedder).Allow
+//@   prop C09
+//@   opaque shouldDrop
+//@   requires shOK(as)
+//@   ensures [rejected] ret(as.shouldDrop) ==> result0 == nil && result1 == ErrServiceOverloaded && as.flying == old(as.flying) && *as.droppedRecently == 1
+//@   ensures [admitted] !ret(as.shouldDrop) ==> result1 == nil && result0 != nil && as.flying == old(as.flying) + 1
+//@   ensures [promise] !ret(as.shouldDrop) ==> typeis(result0, ptr(promise)) && unbox(result0, ptr(promise)).shedder == as
+
+// A promise gives its slot back exactly once, whichever way it completes.
+//@ func (*promise).Pass
+//@   prop C09
+//@   opaque Add
+//@   requires p != nil && p.shedder != nil && p.shedder.rtCounter != p.shedder.passCounter
+//@   ensures [returns-slot] p.shedder.flying == old(p.shedder.flying) - 1
+//@   ensures [records] calls(p.shedder.rtCounter.Add) == 1 && calls(p.shedder.passCounter.Add, 1.0) == 1
+//@ func (*promise).Fail
+//@   prop C09
+//@   requires p != nil && p.shedder != nil
+//@   ensures [returns-slot] p.shedder.flying == old(p.shedder.flying) - 1
